@@ -1,8 +1,8 @@
 #!/bin/sh
-# verifies /tmp/wt/R*/_refac/*/patch.diff: suite unchanged with the patch applied (in that worktree)
+# usage: verify_refacs.sh <refac dir> ...   (each /tmp/wt/Rnn/_refac/<id>): suite unchanged with the patch applied
 BASE_FAIL="$(cat /verif/tools/baseline_failed.txt)"
-for wt in /tmp/wt/R*; do
-  for d in $wt/_refac/*; do
+for d in "$@"; do
+    wt=$(dirname $(dirname $d))
     [ -f $d/patch.diff ] || continue
     cd $wt && git checkout -q -- .
     git apply $d/patch.diff || { echo "$(basename $d): patch does not apply"; continue; }
@@ -12,5 +12,4 @@ for wt in /tmp/wt/R*; do
     git checkout -q -- .
     find $wt -name __pycache__ -type d -prune -exec rm -rf {} + 2>/dev/null
     echo "$(basename $d): suite='$summary' failedset=$failed base=$BASE_FAIL"
-  done
 done
